@@ -29,7 +29,15 @@ func (g *GenericPlanner) WrapProcess(ctx *shared.PlannerContext,
 			}()
 		}
 		defer close(out)
-		defer func() { shared.TamePanic(out) }()
+		defer func() {
+			// whatever ended this stage (also a recovered panic), let the upstream finish
+			go func() {
+				for range _in {
+				}
+			}()
+		}()
+		// recover() only works in the deferred function itself, not in a function it calls
+		defer shared.TamePanic(out)
 		for entries := range _in {
 			for i := range entries {
 				err := ops.OnEntry(&entries[i])
